@@ -57,6 +57,11 @@ func runC14(c *Ctx) {
 	ruleAllColumns(c, p, "C14.all-columns")
 	ruleAssertSiblings(c, p, "C14.assert-siblings")
 	ruleVersionArgs(c, p, "C14.version")
+	for _, cf := range c.Configs() {
+		if pc := c.Prog(cf); pc != nil {
+			ruleEncoderPure(c, pc, "C14.pure")
+		}
+	}
 	ruleHeaderEveryColumn(c, p, "C14.descriptor")
 	for _, cfg := range c.Configs() {
 		if pc := c.Prog(cfg); pc != nil {
@@ -287,6 +292,26 @@ func ruleWriterInvariant(c *Ctx, p *core.Program, prefix string) {
 					if core.Dominates(ct.(ssa.Instruction), call.(ssa.Instruction)) {
 						dom = true
 					}
+				}
+				// with nothing chained, the staging buffer's tail is all there is: writing it directly keeps the order
+				emptyVec := core.CondEdges(fn, true, func(cond ssa.Value) (bool, bool) {
+					bo, ok := cond.(*ssa.BinOp)
+					if !ok || (bo.Op != token.EQL && bo.Op != token.NEQ) {
+						return false, false
+					}
+					k, isC := core.ConstInt(bo.Y)
+					cl, isL := bo.X.(*ssa.Call)
+					if !isC || k != 0 || !isL {
+						return false, false
+					}
+					bi, isB := cl.Call.Value.(*ssa.Builtin)
+					if !isB || bi.Name() != "len" || core.FieldOrigin(cl.Call.Args[0], 0) != "Writer."+fVec {
+						return false, false
+					}
+					return bo.Op == token.EQL, true
+				})
+				if !dom && len(emptyVec) > 0 && core.OnlyViaEdges(fn, call.(ssa.Instruction), emptyVec) {
+					dom = true
 				}
 				if !dom {
 					c.R.Bad(rule, core.CallKey(fn, call), cfg, p.Pos(call.Pos()), "the Writer writes to the connection directly, without the staging buffer's tail having been cut into the vector first: bytes staged after the last chained slice (a block header, the end-of-data marker) go out before the slices chained ahead of them")
@@ -919,11 +944,12 @@ func ruleAssertSiblings(c *Ctx, p *core.Program, rule string) {
 	}
 	collect := func(root *ssa.Function) []string {
 		set := map[string]bool{}
-		for fn := range core.StaticReach(root, 1) {
+		for fn := range core.StaticReach(root, 2) {
 			if pkgOf(fn) == nil || pkgOf(fn).Path() != core.PkgProto {
 				continue
 			}
-			if fn != root && fn.Parent() != root {
+			// the encoder, its closures, and helper methods of the input column it calls per column
+			if rn := core.RecvNamed2(fn); fn != root && fn.Parent() != root && !(rn != nil && rn.Obj().Name() == "InputColumn") {
 				continue
 			}
 			for _, b := range fn.Blocks {
